@@ -116,6 +116,8 @@ class ExcAnalysis:
                             cl = set()
                         if d == "next" and len(n.args) >= 2:
                             cl = set()
+                        if d in ("bytes", "bytearray", "int", "str", "list", "dict", "set", "tuple") and not n.args and not n.keywords:
+                            cl = set()      # the empty constructor
                         if cl:
                             out.append(Construct(fi, n, "ext", cl, d))
                     elif d.startswith(("inspect.", "importlib.", "pkgutil.", "os.", "argparse.", "sys.")) or d == "open":
